@@ -35,7 +35,9 @@ def gen_cases(tier, seed):
         dt = float(10 ** rng.uniform(-10, 0))
         off = float(rng.choice([0, 1, 1e3, 1e6]) * rng.uniform(-1, 1) * N * dt)
         c = {"cls": kind, "N": N, "dt": dt, "offset": off, "values": str(rng.choice(["impulse", "step", "chirp", "noise"])),
-             "fc_frac": float(rng.uniform(0.03, 0.45)), "force_real": bool(rng.integers(0, 2))}
+             "fc_frac": float(rng.uniform(0.03, 0.45)), "force_real": bool(rng.integers(0, 2)),
+             # sample magnitudes from 1e-13 to 1e6 (a third of the cases), and the documented default force_real=False relied upon
+             "amplitude": float(10 ** rng.uniform(-13, 6)) if rng.random() < 0.34 else 1.0, "omit_force_real": bool(rng.integers(0, 2))}
         if kind == "delay":
             c["m"] = int(rng.integers(0, N + 1)) if rng.random() < 0.75 else int(rng.integers(N + 1, 2 * N + 1))
             c["cls"] = "delay<=N" if c["m"] <= N else "delay>N"
@@ -162,8 +164,9 @@ def run_case(case):
     N, dt, off = case["N"], case["dt"], case["offset"]
     t = off + np.arange(N) * dt
     dts = float(t[1] - t[0])
-    vals = make_values(case["values"], N, rng)
-    vals2 = rng.normal(size=N)
+    amp = float(case.get("amplitude", 1.0))
+    vals = make_values(case["values"], N, rng) * amp
+    vals2 = rng.normal(size=N) * amp
     fr_ = case["force_real"]
     present, truth, passive = responses(case, dts)
     asked = {"array": 0, "scalar": 0}
@@ -175,7 +178,10 @@ def run_case(case):
 
     def run(values, times=t, H=recorded, fr=fr_):
         s = Signal(times, values)
-        s.filter_frequencies(H, force_real=fr)
+        if fr is False and case.get("omit_force_real"):
+            s.filter_frequencies(H)           # the documented default: the response is used as given
+        else:
+            s.filter_frequencies(H, force_real=fr)
         return np.array(s.values)
 
     sc = max(float(np.max(np.abs(vals))), 1e-300)
